@@ -115,8 +115,7 @@ def rot_direction(ctx, M, fp, rows):
     tabrows = [term for g, term in rows if any(u[0] == "attr" and u[2] == "precomputed_single_rotations" for u in N.walk(term))]
     ok = bool(tabrows) and all(any(u[0] == "sub" and u[1][0] == "sub" and u[1][1][0] == "attr" and u[1][1][2] == "precomputed_single_rotations" and u[1][2] == namt and u[2][0] == "elem" and u[2][1] == IN
                                   for u in N.walk(term)) for term in tabrows)
-    if tabrows:
-        ctx.ob(rule, fp, ok, "the single-byte kernel looks each data byte up in the table row of the normalised amount", key="table lookup")
+    # (which row of the table the single-byte kernel uses is decided by rotation_semantics: ('tab', row, k) must have row == amount mod 8)
     ctx.floor(rule, 3)
 
 
